@@ -358,6 +358,9 @@ class Facts:
             if not os.environ.get("VERIF_NO_ALPHA"):
                 # private items renamed since the rules were written are spelled back (see alpha.py)
                 import alpha
+                for dep in alpha.DEPS.get(name, []):
+                    if dep not in self._units and os.path.exists(os.path.join(self.dir, dep + ".json")):
+                        self.unit(dep)
                 alpha.canonicalise(name, d)
             self._units[name] = Unit(name, d)
         return self._units[name]
